@@ -1167,6 +1167,8 @@ def reach_dnf(body, O, target_bb, limit=4096, param_atoms=False):
         if rv["k"] == "use":
             op = rv["op"]
             if op.get("k") == "const" and op.get("ty") == "bool":
+                if "val" not in op:
+                    return None         # an associated constant of a generic parameter (`C::EXTENSIBLE`): not known here
                 return ("const", bool(int(op.get("val", "0"))))
             if op.get("k") in ("copy", "move") and not op["pl"]["p"]:
                 return resolve(op["pl"]["l"], path[:pos[d[0]] + 1], depth + 1)
@@ -1214,7 +1216,7 @@ def reach_dnf(body, O, target_bb, limit=4096, param_atoms=False):
                     i = pl["p"][0]["i"]
                     if i < len(ops) and ops[i].get("k") in ("copy", "move") and not ops[i]["pl"]["p"]:
                         sw_local = ops[i]["pl"]["l"]
-                    elif i < len(ops) and ops[i].get("k") == "const" and ops[i].get("ty") == "bool":
+                    elif i < len(ops) and ops[i].get("k") == "const" and ops[i].get("ty") == "bool" and "val" in ops[i]:
                         sw_local = ("const", bool(int(ops[i].get("val", "0"))))
         if sw_local is not None:
             r = sw_local if isinstance(sw_local, tuple) else resolve(sw_local, path)
